@@ -106,7 +106,17 @@ func runOne(u Univ, cfg Config, prof Profile, seed uint64, steps int, path strin
 		}
 		t.Emit(Ev{"op": "note", "blobfiles": nb, "ssts": ns, "cfg": cfg.Name})
 	}
-	cerr := r.CloseAll()
+	var cerr error
+	func() {
+		// DB.Close panics on some leaks (e.g. a file cache with outstanding references): that is a
+		// failed Close, not a dead driver
+		defer func() {
+			if p := recover(); p != nil {
+				cerr = fmt.Errorf("panic in Close: %v", p)
+			}
+		}()
+		cerr = r.CloseAll()
+	}()
 	if r.Fatal == nil {
 		// C47: after Close nothing may be left behind: goroutines started by the DB, open
 		// files/locks on the filesystem
